@@ -241,7 +241,7 @@ impl Scenario for Flow {
             "C02" | "C11" | "C12" => &["substituted_first_fragment", "crc_only_end_packet", "zero_payload_first_fragment", "gse_len_4095", "total_len_65535"],
             "C04" | "C15" => &["substituted_reuse", "substituted_first_fragment"],
             "C07" => &["aliasing_stray_on_open_slot", "restart_same_fid", "first_fragment_claims_aliased_slot"],
-            "C10" => &["rejected_packet_walked", "padding_walked", "substituted_reuse"],
+            "C10" => &["rejected_packet_walked", "padding_walked", "substituted_reuse", "rejected_then_walked_on.bad_crc", "rejected_then_walked_on.unknown_fragment_id", "rejected_then_walked_on.no_storage", "rejected_then_walked_on.storage_too_small", "rejected_then_walked_on.unknown_mandatory_extension", "rejected_then_walked_on.unresolvable_re_use_label"],
             "C19" => &["rejected_packet_walked", "padding_walked", "substituted_reuse", "peek.shortest_intermediate_packet_alone", "peek.shortest_end_packet_alone", "packet_followed_by_further_bytes"],
             _ => &[],
         }
@@ -333,7 +333,9 @@ impl Scenario for Flow {
                 // "presented alone or followed by further bytes": in `trail` runs a clean packet is followed by bytes
                 // that are not part of it (derived from the packet, no PRNG); every expectation below stays the one
                 // of the packet alone
-                let trailed: Option<Vec<u8>> = if trail && clean { Some(with_tail(pkt)) } else { None };
+                // (not for flights whose receiver reads an extension id differently from the sender: there the
+                // receiver's answer is a frame-level one, outside C10's rejection classes)
+                let trailed: Option<Vec<u8>> = if trail && clean && fl.map(|fi| !flights[fi].tainted).unwrap_or(false) { Some(with_tail(pkt)) } else { None };
                 let fed: &[u8] = trailed.as_deref().unwrap_or(pkt);
                 if trailed.is_some() {
                     ex.st.inc("probe.packet_followed_by_further_bytes");
@@ -361,9 +363,14 @@ impl Scenario for Flow {
                     ex.st.cov("transition", th.0);
                 }
                 if let Some(b) = bare.as_mut() {
-                    let rb = b.decap(fed);
+                    // in trail runs the shadow receiver gets the packet alone: any difference is then also a
+                    // dependence of the outcome on the bytes that follow the packet (C10)
+                    let rb = b.decap(pkt);
                     ex.st.inc("lib_calls");
                     let (ob, _) = observe(&rb);
+                    if ob != obs && trailed.is_some() {
+                        let _ = ex.report(Violation::new("C10", "C10.outcome_depends_on_following_bytes", format!("{}:{}{}", hdr.map(|h| h.0.name()).unwrap_or("?"), ob.class, if ob.err.is_empty() { String::new() } else { format!(":{}", ob.err) }), format!("alone: {} {} consumed {}; followed by {} more bytes: {} {} consumed {}", ob.class, ob.err, ob.consumed, fed.len() - pkt.len(), obs.class, obs.err, obs.consumed)));
+                    }
                     if ob != obs {
                         let tgt: &'static str = crate::program::intern(ex.target);
                         let v = Violation::new(tgt, "bare_receiver_differs", format!("{}:{}{}", hdr.map(|h| h.0.name()).unwrap_or("?"), ob.class, if ob.err.is_empty() { String::new() } else { format!(":{}", ob.err) }), format!("the receiver built on the bare SimpleGseMemory/DefaultCrc answers {} {} (consumed {}), the one behind the seam wrappers {} {} (consumed {}): the library behaves differently for an application than for the harness (e.g. through a trait method the wrappers do not forward)", ob.class, ob.err, ob.consumed, obs.class, obs.err, obs.consumed));
@@ -1150,6 +1157,19 @@ impl Scenario for Flow {
                                 }
                                 if obs.class == "err" {
                                     ex.st.inc("probe.rejected_packet_walked");
+                                    // per rejection class named by C10, and only when packets follow in the frame
+                                    if ix + 1 < frame_pkts.len() {
+                                        ex.st.inc(match obs.err.as_str() {
+                                            "Crc" => "probe.rejected_then_walked_on.bad_crc",
+                                            "Mem.UndefinedId" => "probe.rejected_then_walked_on.unknown_fragment_id",
+                                            "Mem.Underflow" => "probe.rejected_then_walked_on.no_storage",
+                                            "SizePduBuffer" => "probe.rejected_then_walked_on.storage_too_small",
+                                            "UnknownMandatoryHeader" => "probe.rejected_then_walked_on.unknown_mandatory_extension",
+                                            "NoLabelSaved" => "probe.rejected_then_walked_on.unresolvable_re_use_label",
+                                            "TotalLength" => "probe.rejected_then_walked_on.total_length",
+                                            _ => "probe.rejected_then_walked_on.other",
+                                        });
+                                    }
                                 }
                                 absorb(w, r);
                                 if resync {
@@ -1490,7 +1510,13 @@ pub mod gen {
             "C02" | "C18" => gen_c02(rng, target),
             "C04" | "C15" => gen_c04(rng, target == "C15"),
             "C07" => gen_c07(rng, idx),
-            "C10" => gen_c10(rng),
+            "C10" => match rng.below(8) {
+                // lock-step runs in which clean packets are followed by further bytes and a shadow receiver gets
+                // them alone (see cfg: trail / shadow)
+                0 => gen_c13(rng),
+                1 => gen_c02(rng, "C02"),
+                _ => gen_c10(rng),
+            },
             // the peek is compared on every sender-produced packet of any lock-step run: frames (c10), extension
             // chains fragmented at every offset and long PDUs (c13), interleaved streams (c07), size corners (c02)
             "C19" => match rng.below(6) {
